@@ -95,6 +95,64 @@ func ruleA18(r *Run, p *Prog) {
 	if nInline < 18 {
 		r.Fail("A18", "inline-floor", "-", fmt.Sprintf("only %d inline-header sites found (≥ 21 on the pinned tree)", nInline))
 	}
+	// R1b: a length or value written as a single argument byte (`byte(l)` after a head with an
+	// explicit one-byte minor, or anywhere else in an encoder function) needs a dominating bound
+	// <= 255: `case l <= 256: append(dst, major|24, byte(l))` writes 0 for 256
+	nNarrow := 0
+	for _, f := range encFns {
+		if viewRoot(f) == prefix {
+			continue
+		}
+		eachInstr(f, func(b *ssa.BasicBlock, i int, in ssa.Instruction) {
+			cv, ok := in.(*ssa.Convert)
+			if !ok {
+				return
+			}
+			bt, isB := cv.Type().Underlying().(*types.Basic)
+			if !isB || bt.Kind() != types.Uint8 || !isIntLike(cv.X.Type()) {
+				return
+			}
+			if st, isS := cv.X.Type().Underlying().(*types.Basic); isS && (st.Kind() == types.Uint8 || st.Kind() == types.Int8) {
+				return
+			}
+			// byte extraction (shifts and masks) truncates on purpose
+			if bo, isBo := cv.X.(*ssa.BinOp); isBo && (bo.Op == token.SHR || bo.Op == token.AND) {
+				return
+			}
+			// only conversions that end up appended to the output
+			appended := false
+			for _, ref := range referrersOf(cv) {
+				switch x := ref.(type) {
+				case *ssa.BinOp:
+					if x.Op == token.OR {
+						appended = true // major|byte(v): judged by the inline-header rule
+						return
+					}
+				case *ssa.Store:
+					appended = true
+				case *ssa.Call:
+					if builtinName(&x.Call) == "append" {
+						appended = true
+					}
+				}
+			}
+			if !appended {
+				return
+			}
+			nNarrow++
+			okc := hasCmp(necessaryCmps(f, cv), func(op token.Token, x, y ssa.Value) bool {
+				n, isN := constInt(y)
+				return isN && sameValue(x, cv.X) && ((op == token.LEQ && n <= 255) || (op == token.LSS && n <= 256))
+			})
+			if !okc {
+				if _, hi, ok := intervalOf(cv.X, 0); ok && hi <= 255 {
+					okc = true
+				}
+			}
+			r.Ob("A18", FnName(f)+"/one-byte-argument", p.Pos(cv.Pos()), okc, true, tern(okc, "value written as one argument byte is bounded by 255", "the value "+descr(cv.X)+" is written as a single byte without a dominating bound <= 255: at the boundary (256) the byte wraps to 0 and the item announces the wrong length or value"))
+		})
+	}
+	_ = nNarrow
 	ruleA18Prefix(r, p, prefix)
 	ruleA18Payload(r, p, encFns, prefix)
 	ruleA18Tags(r, p, encFns)
